@@ -116,7 +116,7 @@ Proof. constructor; simpl; auto; try discriminate; try congruence. Qed.
 
 Lemma step_inv c st e : inv st -> inv (fst (step c st e)).
 Proof.
-  intros Hinv. pose proof Hinv as [Hl Hd Hr Hk]. destruct e as [a|a| |i|src eth p hk]; simpl.
+  intros Hinv. pose proof Hinv as [Hl Hd Hr Hk]. destruct e as [a|a| |i|src eth p hk|q]; simpl.
   - unfold start_hunt.
     destruct (is4 (a_ip a)) eqn:E4; [(simpl; first [exact Hinv | constructor; assumption])|].
     destruct (is6 (a_ip a) && negb (is_llu (a_ip a))) eqn:E6; [(simpl; first [exact Hinv | constructor; assumption])|].
@@ -148,6 +148,7 @@ Proof.
       * intros k Hk'. inversion Hk'; subst. rewrite rt_find_set. discriminate.
       * intros _. discriminate.
       * apply (rt_set_keys (routers st) (router_update (router_new (if (List.length (o_slla o) =? 6)%nat then o_slla o else eth) src) p o)); auto.
+  - exact Hinv.
 Qed.
 
 Lemma reach_inv c s0 st : inv s0 -> reach c s0 st -> inv st.
@@ -175,7 +176,7 @@ Qed.
 Lemma step_confined c st e l :
   inv st -> snd (step c st e) = ONAs l -> forall n, In n l -> forged_ok c st n.
 Proof.
-  intros Hinv Hs n Hn. destruct e as [a|a| |i|src eth p hk]; simpl in Hs.
+  intros Hinv Hs n Hn. destruct e as [a|a| |i|src eth p hk|q]; simpl in Hs.
   - unfold start_hunt in Hs. repeat (destruct (_ : bool) in Hs; simpl in Hs; try discriminate).
   - unfold stop_hunt in Hs. destruct (_ : bool) in Hs; discriminate.
   - unfold close in Hs. destruct (closed st); discriminate.
@@ -202,6 +203,7 @@ Proof.
     | snd (match ?x with _ => _ end) = _ => destruct x; simpl in Hs; try discriminate
     | snd (let '(_, _) := ?x in _) = _ => destruct x; simpl in Hs; try discriminate
     end.
+  - discriminate Hs.
 Qed.
 
 (* over every history from the initial state *)
@@ -500,7 +502,7 @@ Qed.
 
 Lemma step_uniq c st e : uniq (hunt st) -> uniq (hunt (fst (step c st e))).
 Proof.
-  intros H. destruct e as [a|a| |i|src eth p hk]; cbn [step].
+  intros H. destruct e as [a|a| |i|src eth p hk|q]; cbn [step].
   - unfold start_hunt. destruct (is4 (a_ip a)); [exact H|].
     destruct (is6 (a_ip a) && negb (is_llu (a_ip a))); [exact H|].
     destruct (al_has (hunt st) (a_mac a)) eqn:E; [exact H|]. cbn [fst hunt]. unfold al_add. rewrite E.
@@ -517,6 +519,7 @@ Proof.
     destruct (negb hk); [exact H|].
     destruct (ra_options p); try exact H.
     destruct (rt_find (routers st) src); exact H.
+  - exact H.
 Qed.
 
 Lemma reach_uniq c s0 st : uniq (hunt s0) -> reach c s0 st -> uniq (hunt st).
@@ -543,7 +546,7 @@ Lemma step_keeps_unhunted c st e mac :
   al_has (hunt st) mac = false -> (forall a, e = StartHunt a -> bytes_eqb (a_mac a) mac = false) ->
   al_has (hunt (fst (step c st e))) mac = false.
 Proof.
-  intros H Hs. destruct e as [a|a| |i|src eth p hk]; cbn [step].
+  intros H Hs. destruct e as [a|a| |i|src eth p hk|q]; cbn [step].
   - unfold start_hunt. destruct (is4 (a_ip a)); [exact H|].
     destruct (is6 (a_ip a) && negb (is_llu (a_ip a))); [exact H|].
     destruct (al_has (hunt st) (a_mac a)) eqn:E; [exact H|]. cbn [fst hunt]. unfold al_add. rewrite E.
@@ -560,6 +563,7 @@ Proof.
     destruct (negb hk); [exact H|].
     destruct (ra_options p); try exact H.
     destruct (rt_find (routers st) src); exact H.
+  - exact H.
 Qed.
 
 Lemma run_unhunted c mac : forall evs st, inv st ->
@@ -603,7 +607,7 @@ Qed.
 (* C14_stop, Close part: once closed, no loop pass emits anything, whatever happens afterwards *)
 Lemma step_closed c st e : closed st = true -> closed (fst (step c st e)) = true.
 Proof.
-  intros H. destruct e as [a|a| |i|src eth p hk]; cbn [step].
+  intros H. destruct e as [a|a| |i|src eth p hk|q]; cbn [step].
   - unfold start_hunt. destruct (is4 (a_ip a)); [exact H|].
     destruct (is6 (a_ip a) && negb (is_llu (a_ip a))); [exact H|].
     destruct (al_has (hunt st) (a_mac a)); exact H.
@@ -618,6 +622,7 @@ Proof.
     destruct (negb hk); [exact H|].
     destruct (ra_options p); try exact H.
     destruct (rt_find (routers st) src); exact H.
+  - exact H.
 Qed.
 
 Lemma run_closed c : forall evs st, inv st -> closed st = true ->
